@@ -1,6 +1,7 @@
 """C05 Client actions: admission rules and at-most-once effect."""
 from mirsym.harness import Check
 from . import scen, race
+from .plan import scripted_jobs
 from .C01 import ASSUME
 
 QUICK = ['seq2', 'two_if', 'catch_act', 'msg_set', 'par_block', 'outs_act']
@@ -8,25 +9,13 @@ QUICK = ['seq2', 'two_if', 'catch_act', 'msg_set', 'par_block', 'outs_act']
 
 def main(tier, seed):
     c = Check("C05", tier, seed)
-    jobs = []
-    names = QUICK if tier == "quick" else list(scen.catalogue().keys())
-    k = 2 if tier == "quick" else 3
-    parts = 4 if tier == "quick" else 16
-    for n in names:
-        for i in range(parts):
-            jobs.append(("props.flow", "run_scenario", (n, dict(policy="fifo", k=k, oracles=("c05",), targets="acts", skip_running_acts=True, omit_outputs=True, part=(i, parts),
-                                                                 max_paths=600 if tier == "quick" else 20000, seed=seed), "C05")))
-        jobs.append(("props.flow", "run_scenario", (n, dict(policy="lifo", k=1, oracles=("c05",), targets="all", skip_running_acts=True, omit_outputs=True, max_paths=400, seed=seed), "C05")))
+    jobs, bounds = scripted_jobs("C05", "c05", QUICK, tier, seed, extra=dict(skip_running_acts=True, omit_outputs=True))
     # last clause: concurrent identical actions (two model threads, one pre-emption, every lock operation of the first as switch point)
     race_scen = ["seq2", "catch_act"] if tier == "quick" else ["seq2", "catch_act", "two_if", "par_block", "outs_act", "nested"]
     for n in race_scen:
         for kind in race.CLOSERS:
             for pre in ((0,) if tier == "quick" else (0, 1)):
                 jobs.append(("props.race", "run_race", (n, dict(kinds=[kind], pre=pre, keep=True, max_paths=1500 if tier == "quick" else 6000, seed=seed), "C05")))
-    # longer histories over a small vocabulary: complete / back / cancel / error on a two-step flow (back followed by cancel of the old instance etc.)
-    for i in range(4):
-        jobs.append(("props.flow", "run_scenario", ("two_steps", dict(policy="fifo", k=3 if tier == "quick" else 4, kinds=["Next", "Back", "Cancel", "Error"], oracles=("c05",), targets="acts",
-                                                                     skip_running_acts=True, part=(i, 4), max_paths=1500 if tier == "quick" else 20000, seed=seed), "C05")))
     c.run_jobs(jobs)
     return c.finish(
         rule="one path = scenario x valuation class of the symbolic inputs x (target task, symbolic action kind, declared output supplied or omitted) per script step x schedule; "
@@ -34,4 +23,4 @@ def main(tier, seed):
         assumptions=ASSUME + ["race clause: 2 threads (the property says 2..8), context bound = one switch into the second caller and back; lock acquisitions are the only switch points (the engine's shared "
                              "state is only reached through std RwLock / Mutex); schedules in which the second caller would block on a lock the first holds need a further switch and are outside the bound "
                              "(counted as infeasible_or_out_of_bound_paths); jobs spawned by the two calls run after both returned", "'reported terminal' = a task event was emitted for the task while in a terminal state"],
-        bounds=dict(scenarios=names, script_len=k, action_kinds=10, targets="every act task (fifo runs, k steps) / every task (lifo runs, 1 step)"))
+        bounds=dict(bounds, race_scenarios=race_scen, race_kinds=race.CLOSERS, race_threads=2, race_preemptions=1))
